@@ -37,14 +37,19 @@ Print Assumptions C01_prec_table_is_spec.
    expression that ENDS in a slice must not be followed by whitespace; for the
    corrected parseSlice the theorem holds without it (…_fixed below).
 
-   Round 8: the grammar now contains calls in parentheses "(f a1 ... an)" and
-   array literals "[e1 ... en]" (Lay_call, Lay_arr): arguments / elements are
+   Round 8: the grammar now contains calls in parentheses "(f a1 ... an)",
+   array literals "[e1 ... en]" and map literals "{k1:v1 ... kn:vn}" with
+   distinct keys (Lay_call, Lay_arr, Lay_map): arguments / elements / values are
    derivations themselves (arbitrarily nested), separated by whitespace and
-   rendered tight, with optional whitespace just inside the brackets.
+   rendered tight, with optional whitespace just inside the brackets and after
+   the colon of a pair.
 
-   _partial: map literals "{k:e ...}" and array literals spread over several
-   lines (newlines / comments between elements) are in the model and in the
-   correspondence run, but not in the grammar this theorem quantifies over. *)
+   _partial — still outside the grammar this theorem quantifies over (all in
+   the model and in the correspondence run): array / map literals spread over
+   several lines (newlines / comments between elements), calls of functions
+   without parameters written as a bare name, keywords used as map keys / after
+   ".", whitespace between a map key and its colon; and, not an expression of
+   the grammar at all, the call statement "f a b" without parentheses. *)
 Theorem C01_prec_pratt_parses_layered_grammar_partial :
   forall E l st rest0 fuel,
   no_tyerr E -> Lay 0 l -> atoms_ok E l -> layout_ok l = true ->
@@ -352,4 +357,39 @@ Example C01_prec_ex_call_parse :
     TBin T_ASTERISK
       (TGroup (TCall (s_ "f") [TIndex (TVar (s_ "a")) (TNum (s_ "0")); TUn T_MINUS (TVar (s_ "b"))]))
       (TIndex (TArr [TNum (s_ "1"); TGroup (TCall (s_ "g") [TNum (s_ "2")])]) (TNum (s_ "0"))).
+Proof. vm_compute. repeat split; reflexivity. Qed.
+
+(*  {a:1 b:[2 (g 3)]}.b[0]   (w = false, tight)   /   { a: 1 b: [ 2 (g 3 ) ] }.b[ 0 ]   (w = true) *)
+Definition ex_map (w : bool) : lexp :=
+  LIndex
+    (LDot (LMap w [(s_ "a", w, LAtom (ANum (s_ "1")) false);
+                   (s_ "b", w, LArr w [LAtom (ANum (s_ "2")) false; LCall false (s_ "g") [LAtom (ANum (s_ "3")) false] w false] w false)]
+                w false)
+          (s_ "b") false)
+    w (LAtom (ANum (s_ "0")) w) false.
+
+Example C01_prec_ex_map_lay :
+  forall w, Lay 0 (ex_map w) /\ atoms_ok env_calls (ex_map w) /\ layout_ok (ex_map w) = true /\ tight_ok (ex_map w) = true.
+Proof.
+  intro w. split; [|split; [|split]].
+  - apply (Lay_0_of 8). apply Lay_index; [|apply Lay_atom_any; repeat constructor].
+    apply Lay_dot. apply Lay_map. intros p [<-|[<-|[]]]; cbn [snd].
+    + apply Lay_atom_any; repeat constructor.
+    + apply (Lay_0_of 8). apply Lay_arr. intros a [<-|[<-|[]]].
+      * apply Lay_atom_any; repeat constructor.
+      * apply (Lay_0_of 8). apply Lay_call. intros a [<-|[]]. apply Lay_atom_any; repeat constructor.
+  - destruct w; vm_compute; repeat split; intros; try discriminate; auto.
+  - destruct w; reflexivity.
+  - destruct w; reflexivity.
+Qed.
+
+Example C01_prec_ex_map_parse :
+  (let toks := tk T_IDENT "x" :: mk T_WS :: mk T_DECLARE :: mk T_WS :: render (ex_map true) ++ [mk T_NL] in
+   option_map fst (parse_stmt_expr env_calls (2 * List.length toks + 10) 2 toks) = Some (Some (tree_of (ex_map true)))) /\
+  (let toks := tk T_IDENT "print" :: mk T_WS :: render (ex_map false) ++ mk T_WS :: render (ex_map true) ++ [mk T_NL] in
+   option_map fst (parse_stmt_expr env_calls (2 * List.length toks + 10) 0 toks) =
+     Some (Some (TCall (s_ "print") [tree_of (ex_map false); tree_of (ex_map true)]))) /\
+  tree_of (ex_map true) =
+    TIndex (TDot (TMap [(s_ "a", TNum (s_ "1")); (s_ "b", TArr [TNum (s_ "2"); TGroup (TCall (s_ "g") [TNum (s_ "3")])])]) (s_ "b"))
+           (TNum (s_ "0")).
 Proof. vm_compute. repeat split; reflexivity. Qed.
